@@ -13,7 +13,7 @@ MUTATIONS = ["instance-repoint", "instance-repoint-same-name-other-library", "po
              "instance-repoint-same-name-other-library",
              "property-value", "property-removed", "drop-library", "drop-definition", "drop-port",
              "drop-cable", "drop-instance", "add-library", "add-definition", "add-port", "add-cable",
-             "add-instance"]
+             "add-instance", "instance-reference-dropped", "instance-reference-gained"]
 
 
 def compare(a, b):
@@ -30,7 +30,7 @@ class C20(Prop):
             "single mutation of the copy among the differences the comparer is documented to examine "
             "(port direction/width/array-ness, cable width, a connection moved to another instance / "
             "another port of the same instance / another bit / another wire of the cable, instance "
-            "re-pointed, property value changed or removed, one library/definition/port/cable/instance "
+            "re-pointed / stripped of or given a reference, property value changed or removed, one library/definition/port/cable/instance "
             "dropped or added); oracle: equal => Comparer(N, copy).compare() returns, different => it "
             "raises. non-trivial = the drawn mutation was applicable and N has >=1 instance with >=2 "
             "connected pins; distinct = distinct case JSON")
@@ -43,7 +43,7 @@ class C20(Prop):
         big = tier == "thorough"
         return gen_ir.Cfg(unnamed=False, max_defs=7 if big else 5, max_children=4, max_width=3,
                           share=True, late=True, top="always", top_modes=["standalone", "definition"],
-                          data_values="edif", undefined_dir=True, twins=True)
+                          data_values="edif", undefined_dir=True, twins=True, noref_children=True)
 
     def strategy(self, tier):
         from vf import gen_verilog
@@ -241,6 +241,29 @@ class C20(Prop):
                     I.reference = cand[j % len(cand)]
                     return "instance %s re-pointed" % I.name
             return None
+        if kind == "instance-reference-dropped":
+            # an unwired instance (or the standalone top instance) loses its reference
+            pool = [I for I in insts if I.reference is not None
+                    and all(op.wire is None for op in I.pins.values())]
+            top = M.top_instance
+            if top is not None and top.parent is None and top.reference is not None and j % 3 == 0:
+                pool = [top]
+            I = pick(pool, i)
+            if I is None:
+                return None
+            I.reference = None
+            return "instance %s lost its reference" % I.name
+        if kind == "instance-reference-gained":
+            pool = [I for I in insts if I.reference is None]
+            I = pick(pool, i)
+            if I is None:
+                return None
+            cand = [D for D in defs if D is not I.parent and not D.children]
+            D = pick(cand, j)
+            if D is None:
+                return None
+            I.reference = D
+            return "instance %s gained a reference" % I.name
         if kind == "instance-repoint-same-name-other-library":
             pool = insts + ([M.top_instance] if M.top_instance is not None else [])
             for n in range(len(pool)):
